@@ -307,9 +307,30 @@ class Soap11(XmlDocument):
                 header_message_class = ctx.descriptor.out_header
                 body_message_class = ctx.descriptor.out_message
 
-            # body
-            ctx.out_body_doc = out_body_doc = etree.Element(
-                                                    '{%s}Body' % self.ns_soap_env)
+            # header
+            if ctx.out_header is not None and header_message_class is not None:
+                ctx.out_header_doc = soap_header_elt = etree.SubElement(
+                                ctx.out_document, '{%s}Header' % self.ns_soap_env)
+
+                if isinstance(ctx.out_header, (list, tuple)):
+                    out_headers = ctx.out_header
+                else:
+                    out_headers = (ctx.out_header,)
+
+                for header_class, out_header in zip(header_message_class,
+                                                                   out_headers):
+                    self.to_parent(ctx,
+                        header_class, out_header,
+                        soap_header_elt,
+                        header_class.get_namespace(),
+                        header_class.get_type_name(),
+                    )
+
+            # body. it is built in place: moving a finished subtree into the
+            # envelope makes lxml drop the namespace declarations it considers
+            # redundant, among them the ones xsi:type values rely on.
+            ctx.out_body_doc = out_body_doc = etree.SubElement(ctx.out_document,
+                                                  '{%s}Body' % self.ns_soap_env)
 
             # assign raw result to its wrapper, result_message
             if ctx.descriptor.body_style is BODY_STYLE_WRAPPED:
@@ -349,27 +370,6 @@ class Soap11(XmlDocument):
 
                 self.to_parent(ctx, body_message_class, out_object, out_body_doc,
                                                             sub_ns, sub_name)
-
-            # header
-            if ctx.out_header is not None and header_message_class is not None:
-                ctx.out_header_doc = soap_header_elt = etree.SubElement(
-                                ctx.out_document, '{%s}Header' % self.ns_soap_env)
-
-                if isinstance(ctx.out_header, (list, tuple)):
-                    out_headers = ctx.out_header
-                else:
-                    out_headers = (ctx.out_header,)
-
-                for header_class, out_header in zip(header_message_class,
-                                                                   out_headers):
-                    self.to_parent(ctx,
-                        header_class, out_header,
-                        soap_header_elt,
-                        header_class.get_namespace(),
-                        header_class.get_type_name(),
-                    )
-
-            ctx.out_document.append(ctx.out_body_doc)
 
         if self.cleanup_namespaces:
             self._cleanup_namespaces(ctx.out_document)
